@@ -1,3 +1,3 @@
-CONSTANT Want = {"C31_CallsReturn", "C31_Coalesces", "C31_AtMostOne", "C31_NoLoss"}
+CONSTANT Want = {"C31_CallsReturn", "C31_Coalesces", "C31_AtMostOne", "C31_NoLoss", "C31_TerminateKeepsBuffered"}
 SPECIFICATION TSpec
 CHECK_DEADLOCK FALSE
